@@ -252,6 +252,9 @@ def run_faulty(ctx, run, name, case):
     # the sequential calls around the section (slots 60-63: warm-up before, "the registry still works" after) are all
     # designed to succeed, whatever the threads did to THEIR topologies
     for l in getattr(ctx, "first_faulty_transcript", "").split("\n"):
+        if re.match(r"S \d+ dupto ", l) and fieldv(l, "rc") == "1" and ("0" in (fieldv(l, "new_dv") or "") or "0" in (fieldv(l, "new_mv") or "")):
+            V(run, "dup-ends-invalid", "hwloc_topology_dup returned 0 but the new (loaded) topology has invalid distances/memattr caches (dv=%s mv=%s): "
+              "concurrent consulting calls on it refresh them concurrently" % (fieldv(l, "new_dv"), fieldv(l, "new_mv")), replay + "\n" + l)
         m = re.match(r"S (\d+) (init|load|cons|destroy) (6[0-3])\b(.*)", l)
         if m and m.group(3) != "62" and fieldv(l, "rc") != "1":
             V(run, "components-registry-broken:%s-%s" % (m.group(2), m.group(3)),
@@ -264,7 +267,13 @@ def run_faulty(ctx, run, name, case):
             V(run, "harness-parse", "thread program not understood in %s" % name, replay, no_input=True)
     if rc != 0:
         ma = re.search(r"(\S+): (\w+): Assertion `([^']*)' failed", err)
-        if ma:
+        ms = re.search(r"ERROR: (\w+Sanitizer): ([\w-]+)", err)
+        if ms and not ma:
+            fr = re.search(r"#\d+ \S+ in (hwloc_\w+) ", err)
+            V(run, "sanitizer:%s:%s" % (ms.group(2), fr.group(1) if fr else "?"),
+              "%s: %s in %s while independent histories ran on distinct topologies (%s)" % (ms.group(1), ms.group(2), fr.group(1) if fr else "?", name),
+              replay + "\nstderr:\n" + err[:4000])
+        elif ma:
             V(run, "library-abort:" + ma.group(2), "the library aborted in %s on assert(%s) (%s) while independent histories ran: %s" % (ma.group(2), ma.group(3), ma.group(1), name),
               replay + "\nstderr:\n" + err[-3000:])
         else:
@@ -302,6 +311,10 @@ def run_faulty(ctx, run, name, case):
     cats = parse_tsan(err_t.decode(errors="replace"))
     ctx.tsan_reports += len(cats)
     for c in sorted(set(cats)):
+        if c in ("dist", "memattr") and "# expect: dup-ends-invalid" in case:
+            V(run, "dup-ends-invalid", "ThreadSanitizer: readers of a freshly duplicated topology race in the %s cache refresh" % c,
+              replay + "\ntsan:\n" + err_t.decode(errors="replace")[:6000])
+            continue
         if c.startswith("static:"):
             # a first use that the sequential preamble did not warm (e.g. libxml2's lazily created catalog mutex on the
             # first load of a missing file): the known first-use class, not an interference between the histories
@@ -631,6 +644,8 @@ def check(run, replay=None):
             cases.append(("indep-faulty-T%d-%d" % (T, r), G.indep_faulty(rng_f, C.REPO, docs, T, ordered=(r % 2 == 0))))
             cases.append(("indep-errors-T%d-%d" % (T, r), G.indep_errors(rng_f, C.REPO, docs, T, lockstep=False)))
         cases.append(("indep-errors-lockstep-%d" % r, G.indep_errors(rng_f, C.REPO, docs, 2, lockstep=True)))
+        cases.append(("indep-dups-%d" % r, G.indep_dups(rng_f, C.REPO, docs, lockstep=False)))
+        cases.append(("indep-dups-lockstep-%d" % r, G.indep_dups(rng_f, C.REPO, docs, lockstep=True)))
     for name, case in cases:
         if "# kind: indep-faulty" in case:
             if not docs:
